@@ -85,9 +85,9 @@ check('C16', 'complete pair table of synthetic custom span tokens (Allen relatio
       'enumeration-pool + hypothesis-sharded',
       'All 10400 configurations of two custom token types are parsed at top level and again inside the parse group of a third custom token, '
       'and checked against an outcome table derived from the statement (asserted in 6800 unambiguous cells) and against tiling / order / '
-      'containment / confinement invariants (context left normally and by an exception); random sets of up to 4 '
+      'containment / confinement invariants (context left normally and by an exception); a token with three-character delimiters is run against every span inside it (4500 cases: nest in the parse group, otherwise precedence); random sets of up to 4 '
       'regex-based custom types over generated texts are checked against the invariants.',
-      'Outcome is not asserted where the statement is silent (equal starts, match inside the other\'s delimiter, container that does not parse inner).',
+      'Outcome is not asserted where the statement is silent (equal starts, container that does not parse inner). One recorded finding (match inside a closing delimiter) is excluded by its narrow class.',
       'DESIGN.md 5/C16')
 
 check('C04', 'Hypothesis-generated texts; metamorphic relation between the parse of a text and of its block-quote / list-item embedding',
